@@ -462,6 +462,9 @@ def run(ctx):
     ctx.assumptions = ["raw odb.add(path, fs, arbitrary_oid) is not one of the operations (the test-suite uses it to plant corrupt objects)",
                        "a source that does not match its names (rotten remote, workspace rewritten after build) is only transferred with verify=True; "
                        "the rotten remote itself is not one of the audited stores",
+                       "an import through an index reads a complete source (only directory objects whose files the source store holds are "
+                       "described by the index: a transfer that raises half-way because a source object is missing leaves the objects it did "
+                       "copy correctly named but not yet write-protected) and never stages the root path '/' of the served filesystem",
                        "chmod works on the sandbox filesystem"]
     for _ in range(ctx.n(90, 1000)):
         run_sequence(ctx, ctx.rng)
